@@ -148,7 +148,12 @@ def helper_cases():
             for nb in (1, 2, 3):
                 n += 1
                 betas = [m['Beta'](f'b{i}', 0, None, None, 0) for i in range(nb)]
-                cats = m['segmentation_catalogs'](generic_name='seg', beta_parameters=betas, potential_segmentations=segs[:k], maximum_number=maxi)
+                try:
+                    cats = m['segmentation_catalogs'](generic_name='seg', beta_parameters=betas, potential_segmentations=segs[:k], maximum_number=maxi)
+                except m['BiogemeError'] as e:
+                    bad.append({'check': 'segmentation_catalogs refuses its own catalogs', 'segmentations': k, 'maximum_number': maxi,
+                                'parameters': nb, 'error': str(e)[:200]})
+                    continue
                 ctrls = {id(c.controlled_by) for c in cats}
                 probs = []
                 if len(cats) != nb:
@@ -168,8 +173,13 @@ def helper_cases():
             for use_seg in (False, True):
                 n += 1
                 betas = [m['Beta'](f'g{i}', 0, None, None, 0) for i in range(nb)]
-                res = m['generic_alt_specific_catalogs'](generic_name='gen', beta_parameters=betas, alternatives=alts,
-                                                         potential_segmentations=segs[:2] if use_seg else None, maximum_number=2)
+                try:
+                    res = m['generic_alt_specific_catalogs'](generic_name='gen', beta_parameters=betas, alternatives=alts,
+                                                             potential_segmentations=segs[:2] if use_seg else None, maximum_number=2)
+                except m['BiogemeError'] as e:
+                    bad.append({'check': 'generic_alt_specific_catalogs refuses its own catalogs', 'alternatives': alts, 'parameters': nb,
+                                'segmented': use_seg, 'error': str(e)[:200]})
+                    continue
                 cats = [c for d in res for c in d.values()]
                 probs = []
                 if len(res) != nb or any(tuple(d.keys()) != alts for d in res):
@@ -255,7 +265,11 @@ def iterator_cases():
             probs.append('constructor: not positioned on the first element')
         seen = []
         for k in range(1, len(order) + 1):
-            e = next(it)
+            try:
+                e = next(it)
+            except StopIteration:
+                probs.append(f'StopIteration at call {k} of {len(order)}: a configuration is never delivered')
+                break
             cur = f.current_configuration()
             seen.append(cur.string_id)
             if e is not f or it.number != k or it.first or cur != order[k - 1]:
@@ -321,14 +335,31 @@ def same_name_controller_cases():
     return n, bad
 
 
+def _safe(f):
+    """an exception escaping a family is a failure of that family (replays must not crash)"""
+    def run():
+        try:
+            return f()
+        except BaseException as e:      # noqa: BLE001  (StopIteration / BiogemeError / TypeError from the code under test)
+            import traceback
+            return 1, [{'check': f'{f.__name__} raised {type(e).__name__}', 'error': str(e)[:300],
+                        'where': traceback.format_exc().strip().splitlines()[-3:]}]
+    run.__name__ = f.__name__
+    return run
+
+
+def _from_dict_cases():
+    return catalog_ctor_cases(from_dict=True)
+
+
 FAMILIES = {
-    'controller_ctor': controller_ctor_cases,
-    'catalog_ctor': catalog_ctor_cases,
-    'from_dict': lambda: catalog_ctor_cases(from_dict=True),
-    'helpers': helper_cases,
-    'get_configuration': get_configuration_cases,
-    'iterator': iterator_cases,
-    'same_name': same_name_controller_cases,
+    'controller_ctor': _safe(controller_ctor_cases),
+    'catalog_ctor': _safe(catalog_ctor_cases),
+    'from_dict': _safe(_from_dict_cases),
+    'helpers': _safe(helper_cases),
+    'get_configuration': _safe(get_configuration_cases),
+    'iterator': _safe(iterator_cases),
+    'same_name': _safe(same_name_controller_cases),
 }
 
 
